@@ -11,7 +11,7 @@ from mc import core
 from mc.coma import (AlignmentSegment, EmptyAlignmentSegment, ScoredAlignedPair, AlignedPair, PositionWithSiteId as P, Peak,
                      SegmentChainer, SequentialityScorer)
 
-RULE = ("every subset (size bound) of a 19-descriptor segment pool, every input permutation for small subsets, 0-2 empty "
+RULE = ("every subset (size bound) of a 21-descriptor segment pool, every input permutation for small subsets, 0-2 empty "
         "segments added, x strands x 2 join-score variants x 3 multipliers; oracle = brute force over ALL subsets in key order; "
         "non-trivial = optimum uses >= 2 segments and differs from 'take all' and from 'take the best single one'; distinct by "
         "(strand, variant, multiplier, subset)")
@@ -25,7 +25,9 @@ POOL = [(100, 20, 0, 100), (120, 20, 0, 250), (130, 40, 0, 100), (150, 20, 10, 1
         (180, 0, 30, 100), (200, 40, 10, 250), (140, 20, 0, 100), (160, 40, -30, 100), (230, 20, 0, 100), (100, 40, 10, 250),
         (120, 20, 0, 100), (140, 0, 0, 250),
         # locally stretched segments: 5th element = query length (shorter on the reference but longer on the query, and vice versa)
-        (150, 20, 0, 250, 40), (160, 40, -10, 100, 20), (190, 20, 10, 100, 30), (100, 20, 0, 250, 40), (130, 40, -10, 100, 20)]
+        (150, 20, 0, 250, 40), (160, 40, -10, 100, 20), (190, 20, 10, 100, 30), (100, 20, 0, 250, 40), (130, 40, -10, 100, 20),
+        # odd extents: an overlap of 11 is just over half of 21 (floor division of a negative length rounds the wrong way)
+        (200, 21, 0, 250), (210, 21, 0, 100)]
 
 
 def seg(desc, rev):
@@ -60,17 +62,20 @@ def overlap_exceeds_half(a, b):
     return (rd < 0 and -2 * rd > rl) or (qd < 0 and -2 * qd > ql)
 
 
-@core.guarded(lambda rev, variant, mult, sub, nempty, *a: dict(reverse=rev, variant=variant, multiplier=mult, subset=list(sub), empties=nempty))
-def check_case(rev, variant, mult, sub, nempty, acc, cache=None):
+@core.guarded(lambda rev, variant, mult, sub, nempty, acc=None, cache=None, before=None: dict(reverse=rev, variant=variant, multiplier=mult, subset=list(sub), empties=nempty, before=list(before) if before else None))
+def check_case(rev, variant, mult, sub, nempty, acc, cache=None, before=None):
     scorer = SequentialityScorer(mult, variant)
     chainer = SegmentChainer(scorer)
+    if before:
+        # operation sequence: an earlier chain() call on the SAME chainer / scorer instance (another query handled by the same worker)
+        chainer.chain([seg(POOL[i], rev) for i in before])
     descs = [POOL[i] for i in sub]
     segs = [seg(d, rev) for d in descs]
     empties = [EmptyAlignmentSegment(Peak(0, 1), []) for _ in range(nempty)]
     inp = segs[:1] + empties[:1] + segs[1:] + empties[1:]
     out = chainer.chain(list(inp))
     found = []
-    case = dict(reverse=rev, variant=variant, multiplier=mult, subset=list(sub), empties=nempty)
+    case = dict(reverse=rev, variant=variant, multiplier=mult, subset=list(sub), empties=nempty, before=list(before) if before else None)
 
     def bad(sym, detail=''):
         found.append((sym, '%s descs=%s out=%s' % (detail, descs, [idx(o) for o in out]), 'chain', {'strand': '-' if rev else '+'}))
@@ -182,11 +187,33 @@ class Subsets(core.Layer):
                         check_case(rev, variant, mult, list(order), ne, acc)
 
     def replay(self, case):
-        return check_case(case['reverse'], case['variant'], case['multiplier'], case['subset'], case['empties'], None)
+        return check_case(case['reverse'], case['variant'], case['multiplier'], case['subset'], case['empties'], None, None, case.get('before'))
+
+
+class TwoCalls(Subsets):
+    """two consecutive chain() calls on one chainer: the first on a subset that chains >= 2 segments, the second (judged) on another"""
+
+    def __init__(self, name, nfirst, kmax, optional=False):
+        Subsets.__init__(self, name, 2, kmax, 0, 0, optional)
+        self.firsts = [c for k in (2, 3) for c in itertools.combinations(range(len(POOL)), k)][::max(1, 1350 // nfirst)][:nfirst]
+        self.configs = [(rev, variant, 1) for rev in (False, True) for variant in (0, 1)]
+        self.rule = '%d first calls x all subsets of size 2..%d as second call x %d configurations, on one chainer instance' % (len(self.firsts), kmax, len(self.configs))
+        self.bounds = dict(self.bounds, sequence_length=2, first_calls=len(self.firsts))
+
+    def nblocks(self):
+        return len(self.configs) * len(self.firsts)
+
+    def run_block(self, b, acc):
+        rev, variant, mult = self.configs[b // len(self.firsts)]
+        before = self.firsts[b % len(self.firsts)]
+        for k in range(2, self.kmax + 1):
+            for sub in itertools.combinations(range(len(POOL)), k):
+                acc.seq += 1
+                check_case(rev, variant, mult, list(sub), 0, acc, None, list(before))
 
 
 def layers(tier, seed):
     if tier == 'quick':
-        return [Subsets('k<=4', 1, 4, 3, 2), Subsets('k=5', 5, 5, 0, 0), Subsets('k=6', 6, 6, 0, 0)]
-    return [Subsets('k<=4', 1, 4, 4, 3), Subsets('k=5', 5, 5, 0, 0), Subsets('k=6', 6, 6, 0, 0), Subsets('k=7', 7, 7, 0, 0),
+        return [Subsets('k<=4', 1, 4, 3, 2), Subsets('k=5', 5, 5, 0, 0), TwoCalls('seq2:k<=3', 24, 3)]
+    return [Subsets('k<=4', 1, 4, 4, 3), Subsets('k=5', 5, 5, 0, 0), TwoCalls('seq2:k<=3', 120, 3), Subsets('k=6', 6, 6, 0, 0), Subsets('k=7', 7, 7, 0, 0),
             Subsets('k=8', 8, 8, 0, 0, optional=True)]
